@@ -32,7 +32,14 @@ def ktext(k):
 
 
 def kind_of(raw):
-    return raw.split(":", 1)[0] if ":" in raw else raw
+    """class of a raw value identifier: s i f b ss is x nil absent; f:frac = a number with a fraction, is:mixed = a list
+    with a non-string entry"""
+    kind = raw.split(":", 1)[0] if ":" in raw else raw
+    if kind == "f" and "." in raw:
+        return "f:frac"
+    if kind == "is" and "#" in raw:
+        return "is:mixed"
+    return kind
 
 
 def spec_class(op, regs):
@@ -84,7 +91,7 @@ def step_class(hist, ej):
                                     "+vfunc" if s["vf"] else "")
         else:
             target = "unknown"
-        where = "%s:%s" % (target, o.get("raw") if name in ("setuser", "setdef", "dbput") else "-")
+        where = "%s:%s" % (target, kind_of(o.get("raw", "?")) if name in ("setuser", "setdef", "dbput") else "-")
     elif name == "dbquery":
         where = "prefix=%s" % (key or "-")
     else:
